@@ -169,6 +169,22 @@ class Table(object):
             kw = {'dose_key': None, 'dose_duration_key': None}
             if r.get('doses'):
                 kw = {'dose_key': 'Dose', 'dose_duration_key': 'Duration'}
+                if r.get('dose_form') == 'bolus':
+                    # no duration column at all: the documented way to say
+                    # so is dose_duration_key=None
+                    df = df.drop(columns=['Duration'])
+                    kw['dose_duration_key'] = None
+            if r.get('keys') == 'custom':
+                # the caller's own column names, passed through the key
+                # arguments, plus a column the controller has no use for
+                ren = {'ID': 'Subject', 'Time': 't [h]', 'Observable': 'What',
+                       'Value': 'y', 'Dose': 'Amount', 'Duration': 'Length'}
+                df = df.rename(columns=ren)
+                df['Comment'] = 'n/a'
+                kw = {a: (ren[b] if b is not None else None)
+                      for a, b in kw.items()}
+                kw.update(id_key='Subject', time_key='t [h]', obs_key='What',
+                          value_key='y')
             if r.get('pop'):
                 ctrl.set_population_model(self.get(r['pop']))
             self.inputs.append((r['h'], 'data frame', snapshot(df), df))
@@ -923,6 +939,10 @@ def generate(rng, index, tier):
             if rng.random() < 0.5:
                 # a control individual: measurements but no dose rows
                 cr['doses'][rng.randrange(cr['n_ids'])] = []
+            if rng.random() < 0.3:
+                cr['dose_form'] = 'bolus'
+        if rng.random() < 0.25:
+            cr['keys'] = 'custom'
         if need_pop and rng.random() < 0.6 and zoo.pop_n_cov(pop) == 0:
             cpop = set_n_ids_recipe(pop, cr['n_ids'])
             recipes.append({'h': 'cpop', 'kind': 'pop', 'pop': cpop,
